@@ -17,14 +17,38 @@ SPEC = dict(
         "primitive_root_prime_partial",
         "jacobi_spec",
         "harmonic_spec", "harmonic_one_spec", "polygonal_spec",
+        "is_nthroot_mod1_spec", "nthroot_zero_branch_partial",
     ]],
     partial=[
         "primitive_root_prime_partial: proved for prime moduli (least primitive root); p^k and 2p^k spec-compared",
+        "nthroot_zero_branch_partial: one branch (a = 0 mod p^k, all roots) of _nthroot_mod_prime_power proved sound and complete",
         "nthroot_mod / nthroot_mod_list / is_nth_residue / is_quad_residue / powermod with rational exponent: "
-        "spec-compared (exhaustive m<=200, n<=12 against brute-force Lean definitions) - no general proof",
+        "spec-compared (exhaustive m<=200, n<=12 against brute-force Lean definitions) - no general proof; proved pieces: "
+        "is_nthroot_mod1_spec (solvability test for odd prime powers), nthroot_zero_branch_partial, crt_spec, powermod_spec",
     ],
     rule="one op = one call (nt) or one sweep of calls over an interval of the first argument (sw); spec/swspec ops "
          "compare the library with brute-force Lean definitions; distinct = distinct op lines; non-trivial = all",
-    not_covered=[],
-    assumptions=[],
+    not_covered=[
+        "n <= 0 for nthroot_mod/nthroot_mod_list/is_nth_residue (mp_scan1(0)); zero moduli / divisors (GMP division by zero kills the process)",
+        "|n| >= 2^64 for every function that factors (symengine throws 'N too large to factor')",
+        "unsigned wrap-around of exponents/counters (k, c, loop indices >= 2^32)",
+        "exact single root of nthroot_mod/powermod when _sqrt_mod_tonelli_shanks is reached (random non-residue): flag + identity only",
+        "exact output of factor_pollard_pm1_method / factor_pollard_rho_method (GMP random state): only '0 or a non-trivial divisor'",
+        "HAVE_SYMENGINE_ARB / FLINT / ECM / PRIMESIEVE branches, boostmp / piranha / flint integer classes",
+        "symbolic (non-numeric) arguments of primepi/primorial/polygonal_number/principal_polygonal_root",
+        "general (all-arguments) proof of nthroot_mod(_list), powermod with rational exponent, is_nth_residue/is_quad_residue "
+        "for composite or even moduli, primitive_root for p^k and 2p^k, primitive_root_list, quadratic_residues, bernoulli, "
+        "gcd/lcm/gcd_ext, factor_*, nextprime, primepi, primorial, perfect_power: spec-compared only",
+    ],
+    assumptions=[
+        "the sieve iterator yields exactly the primes <= limit (property C33); the model loops over all d <= limit",
+        "GMP's mpz_* functions behave as documented (mpz_powm, mpz_invert, mpz_gcdext, mpz_root, mpz_jacobi, ...)",
+        "the model is the code with docs/C32_fix_ntheory.patch applied (D-A floor-mod in the 2^2 branch, D-B reduction "
+        "of listed roots modulo 2^k, D-C ceiling square root in Lehman's method)",
+    ],
+    level_text="partial",
+    level_note="28 functions proved against Mathlib definitions for all arguments; the modular-root family is "
+               "spec-compared exhaustively (m<=200, n<=12) plus random structured moduli through defining identities",
+    technique="Lean 4 model mirrored from ntheory.cpp + Mathlib theorems; correspondence harness with independent "
+              "GMP/brute-force oracle; brute-force Lean definitions (spec ops)",
 )
